@@ -83,6 +83,7 @@ struct Bundle {
     m1_rx: mpsc::Receiver<u32>,
     m2_tx: mpsc::Sender<u32>,
     m3_rx: mpsc::Receiver<u32>,
+    mb_rx: mpsc::Receiver<Vec<u8>>,
     o1_rx: oneshot::Receiver<u32>,
     o2_tx: oneshot::Sender<u32>,
     w1_rx: watch::Receiver<u32>,
@@ -104,6 +105,7 @@ struct ASide {
     m1_tx2: mpsc::Sender<u32>,
     m2_rx: TM<mpsc::Receiver<u32>>,
     m3_tx: mpsc::Sender<u32>,
+    mb_tx: mpsc::Sender<Vec<u8>>,
     _o1_tx: oneshot::Sender<u32>,
     o2_rx: TM<Option<oneshot::Receiver<u32>>>,
     w1_tx: Arc<watch::Sender<u32>>,
@@ -122,6 +124,7 @@ struct BSide {
     m2_tx: mpsc::Sender<u32>,
     m2_tx2: mpsc::Sender<u32>,
     _m3_rx: mpsc::Receiver<u32>,
+    mb_rx: TM<mpsc::Receiver<Vec<u8>>>,
     o1_rx: TM<Option<oneshot::Receiver<u32>>>,
     o2_tx: Option<oneshot::Sender<u32>>,
     w1_rx: TM<watch::Receiver<u32>>,
@@ -194,6 +197,36 @@ impl Ops {
                 Ok(Some(v)) => {
                     tr(format!("got {ch2} {v}"));
                     format!("ok {v}")
+                }
+                Ok(None) => "none".into(),
+                Err(e) => cls(&e),
+            }
+        });
+    }
+
+    /// a message of `len` equal bytes: many chmux chunks; travels as the number `1000 * len + byte`
+    fn big_send(&self, k: &str, side: char, ch: &str, tx: &mpsc::Sender<Vec<u8>>, byte: u8, len: usize) {
+        let tx = tx.clone();
+        let ch2 = ch.to_string();
+        self.start(k, side, "mpsc-send", &format!("ch={ch}"), async move {
+            tr(format!("put {ch2} a {}", 1000 * len + byte as usize));
+            match tx.send(vec![byte; len]).await {
+                Ok(_) => "ok".into(),
+                Err(e) => cls(&e.without_item()),
+            }
+        });
+    }
+
+    fn big_recv(&self, k: &str, side: char, ch: &str, rx: &TM<mpsc::Receiver<Vec<u8>>>) {
+        let rx = rx.clone();
+        let ch2 = ch.to_string();
+        self.start(k, side, "mpsc-recv", &format!("ch={ch}"), async move {
+            match rx.lock().await.recv().await {
+                Ok(Some(v)) => {
+                    let uniform = !v.is_empty() && v.iter().all(|b| *b == v[0]);
+                    let n = if uniform { 1000 * v.len() + v[0] as usize } else { 999_999_999 };
+                    tr(format!("got {ch2} {n}"));
+                    format!("ok {n}")
                 }
                 Ok(None) => "none".into(),
                 Err(e) => cls(&e),
@@ -389,6 +422,9 @@ struct Variant {
     buf: u32,
     spawn_calls: bool,
     hold_read: bool,
+    /// every wire delivers one item per millisecond of virtual time: calls are issued while earlier frames are still
+    /// in flight, faults strike with non-empty queues
+    latency: bool,
 }
 
 fn variant(r: &mut Rng, w: u64) -> Variant {
@@ -398,11 +434,22 @@ fn variant(r: &mut Rng, w: u64) -> Variant {
         1 => (64, 256),
         _ => (16_384, 524_288),
     };
-    Variant { ta, tb, chunk, buf, spawn_calls: w % 2 == 0, hold_read: w % 2 == 1 }
+    Variant { ta, tb, chunk, buf, spawn_calls: w % 2 == 0, hold_read: w % 2 == 1, latency: w % 4 >= 2 }
+}
+
+thread_local! {
+    /// virtual milliseconds one `settle` lasts (1 ns = quiescence when the wires deliver at once; with latency a
+    /// fixed pause that is long enough for the traffic of one phase and shorter than half of every timeout)
+    static SETTLE_MS: std::cell::Cell<u64> = const { std::cell::Cell::new(0) };
 }
 
 async fn settle(ops: &Ops) {
-    tokio::time::sleep(Duration::from_nanos(1)).await;
+    let ms = SETTLE_MS.with(|c| c.get());
+    if ms == 0 {
+        tokio::time::sleep(Duration::from_nanos(1)).await;
+    } else {
+        tokio::time::sleep(Duration::from_millis(ms)).await;
+    }
     tr(format!("settled t={} pending={}", now_ms(), ops.pending_list()));
 }
 
@@ -483,7 +530,28 @@ async fn scenario(v: &Variant, fault: Option<(char, u64, String)>) {
         }
         tr(format!("plan wire={wire} at={at} kind={kind}"));
     }
-    tr(format!("cfg A timeout={} chunk={} buf={}", v.ta, v.chunk, v.buf));
+    SETTLE_MS.with(|c| c.set(if v.latency { 150 } else { 0 }));
+    let pump_on = Arc::new(std::sync::atomic::AtomicBool::new(v.latency));
+    if v.latency {
+        for w in &wires {
+            w.set_release(0);
+        }
+        let pump = [wires[0].clone(), wires[1].clone()];
+        let on = pump_on.clone();
+        tokio::spawn(async move {
+            while on.load(std::sync::atomic::Ordering::Relaxed) {
+                tokio::time::sleep(Duration::from_millis(1)).await;
+                for w in &pump {
+                    // at most one item per millisecond; a stalled or broken wire resets the credit itself
+                    w.set_release(1);
+                }
+            }
+            for w in &pump {
+                w.set_release(verif_harness::transport::INF);
+            }
+        });
+    }
+    tr(format!("cfg A timeout={} chunk={} buf={} latency={}", v.ta, v.chunk, v.buf, v.latency as u8));
     tr(format!("cfg B timeout={} chunk={} buf={}", v.tb, v.chunk, v.buf));
     let mk = |t: u64| {
         let mut c = remoc::Cfg::default();
@@ -513,6 +581,7 @@ async fn scenario(v: &Variant, fault: Option<(char, u64, String)>) {
         let (m1_tx, m1_rx) = mpsc::channel::<u32, _>(2);
         let (m2_tx, m2_rx) = mpsc::channel::<u32, _>(2);
         let (m3_tx, m3_rx) = mpsc::channel::<u32, _>(1);
+        let (mb_tx, mb_rx) = mpsc::channel::<Vec<u8>, _>(2);
         let (o1_tx, o1_rx) = oneshot::channel::<u32, _>();
         let (o2_tx, o2_rx) = oneshot::channel::<u32, _>();
         let (w1_tx, w1_rx) = watch::channel::<u32, _>(0);
@@ -539,7 +608,7 @@ async fn scenario(v: &Variant, fault: Option<(char, u64, String)>) {
         let lazy1 = Lazy::new(vec![1u8; 40]);
         let lazy2 = Lazy::new(vec![2u8; 70]);
         let bundle = Bundle {
-            m1_rx, m2_tx, m3_rx, o1_rx, o2_tx, w1_rx, w2_tx, bc_rx, bin1_rx, bin2_tx, lr1_rx, lr2_tx, client, sub, rw,
+            m1_rx, m2_tx, m3_rx, mb_rx, o1_rx, o2_tx, w1_rx, w2_tx, bc_rx, bin1_rx, bin2_tx, lr1_rx, lr2_tx, client, sub, rw,
             lazy1, lazy2,
         };
         a_side = Some(ASide {
@@ -547,6 +616,7 @@ async fn scenario(v: &Variant, fault: Option<(char, u64, String)>) {
             m1_tx,
             m2_rx: tm(m2_rx),
             m3_tx,
+            mb_tx,
             _o1_tx: o1_tx,
             o2_rx: tm(Some(o2_rx)),
             w1_tx: Arc::new(w1_tx),
@@ -588,11 +658,21 @@ async fn scenario(v: &Variant, fault: Option<(char, u64, String)>) {
         });
     }
     settle(&ops).await;
+    if v.latency {
+        // the transfer takes a few hundred items at one per millisecond
+        for _ in 0..8 {
+            if !ops.pending.lock().unwrap().contains("xfer-recv") {
+                break;
+            }
+            settle(&ops).await;
+        }
+    }
     let b_side: Option<BSide> = b_slot.lock().unwrap().take().map(|b| BSide {
         m1_rx: tm(b.m1_rx),
         m2_tx2: b.m2_tx.clone(),
         m2_tx: b.m2_tx,
         _m3_rx: b.m3_rx,
+        mb_rx: tm(b.mb_rx),
         o1_rx: tm(Some(b.o1_rx)),
         o2_tx: Some(b.o2_tx),
         w1_rx: tm(b.w1_rx),
@@ -623,6 +703,15 @@ async fn scenario(v: &Variant, fault: Option<(char, u64, String)>) {
         ops.mpsc_recv("t1r1", 'B', "m1", &b.m1_rx);
         ops.mpsc_recv("t1r2", 'B', "m1", &b.m1_rx);
         ops.mpsc_recv("t1r3", 'B', "m1", &b.m1_rx);
+    }
+    settle(&ops).await;
+    if let Some(a) = &a {
+        ops.big_send("t1x", 'A', "mb", &a.mb_tx, 7, 300);
+        ops.big_send("t1y", 'A', "mb", &a.mb_tx, 8, 90);
+    }
+    if let Some(b) = &b {
+        ops.big_recv("t1u", 'B', "mb", &b.mb_rx);
+        ops.big_recv("t1v", 'B', "mb", &b.mb_rx);
     }
     settle(&ops).await;
     if let Some(b) = &mut b {
@@ -756,6 +845,7 @@ async fn scenario(v: &Variant, fault: Option<(char, u64, String)>) {
     }
     if let Some(b) = &b {
         ops.mpsc_recv("p1b", 'B', "m1", &b.m1_rx);
+        ops.big_recv("p1x", 'B', "mb", &b.mb_rx);
         ops.mpsc_closed("p2b", 'B', "m2", &b.m2_tx);
         ops.oneshot_recv("p4", 'B', "o1", &b.o1_rx);
         ops.watch_changed("p5b", 'B', "w1", &b.w1_rx);
@@ -825,6 +915,7 @@ async fn scenario(v: &Variant, fault: Option<(char, u64, String)>) {
     tr("phase later".into());
     if let Some(a) = &mut a {
         ops.mpsc_send("l1a", 'A', "m1", "a", &a.m1_tx, 3);
+        ops.big_send("l1x", 'A', "mb", &a.mb_tx, 9, 200);
         ops.mpsc_recv("l2a", 'A', "m2", &a.m2_rx);
         ops.mpsc_closed("l3a", 'A', "m1", &a.m1_tx2);
         ops.mpsc_send("l3b", 'A', "m3", "b", &a.m3_tx, 777_777);
@@ -850,6 +941,7 @@ async fn scenario(v: &Variant, fault: Option<(char, u64, String)>) {
     if let Some(b) = &b {
         ops.mpsc_send("l1b", 'B', "m2", "a", &b.m2_tx, 12);
         ops.mpsc_recv("l2b", 'B', "m1", &b.m1_rx);
+        ops.big_recv("l2x", 'B', "mb", &b.mb_rx);
         ops.mpsc_closed("l3c", 'B', "m2", &b.m2_tx2);
         ops.oneshot_recv("l4b", 'B', "o1", &b.o1_rx);
         ops.watch_send("l5t", 'B', "w2", &b.w2_tx, 80);
@@ -908,6 +1000,7 @@ async fn scenario(v: &Variant, fault: Option<(char, u64, String)>) {
     settle(&ops).await;
     hold_release.notify_waiters();
     // hang detector: nothing may be left that a later timer could still wake
+    pump_on.store(false, std::sync::atomic::Ordering::Relaxed);
     advance(&ops, &wires, 3_600_000).await;
     tr(format!(
         "end pending={} wireA={:?} wireB={:?} livelock={}",
